@@ -1142,6 +1142,149 @@ Proof.
 Qed.
 
 (* ------------------------------------------------------------------------------------- *)
+(* readers spanning any number of inserts                                                 *)
+(* ------------------------------------------------------------------------------------- *)
+
+(* what a reader has seen plus what lies ahead of it (done ++ rest) is always a sub-chain
+   of the current level-0 chain C and contains the chain S it started on *)
+Definition RB (h : heap) (C S : list addr) (r : reader) : Prop :=
+  exists rest, path h 0 (r_cur r) rest /\
+    subseq S (r_done r ++ rest) /\ subseq (r_done r ++ rest) C.
+
+Lemma subseq_split_nodup : forall (P Q X Y : list addr) a,
+  NoDup (P ++ a :: Q) -> subseq (X ++ a :: Y) (P ++ a :: Q) -> subseq X P /\ subseq Y Q.
+Proof.
+  induction P as [|p P IH]; intros Q X Y a Hnd H; cbn [app] in *.
+  - inversion Hnd as [|? ? Hn _]; subst.
+    inversion H as [|x l1 l2 Hs|x l1 l2 Hs]; subst.
+    + exfalso. apply Hn. apply (subseq_incl _ _ _ Hs). apply in_or_app. right. left. reflexivity.
+    + destruct X as [|x X]; cbn [app] in *.
+      * match goal with E : _ :: _ = _ :: _ |- _ => injection E as E end. subst.
+        split; [constructor|exact Hs].
+      * match goal with E : _ :: _ = _ :: _ |- _ => injection E as E1 E2 end. subst.
+        exfalso. apply Hn. apply (subseq_incl _ _ _ Hs). apply in_or_app. right. left. reflexivity.
+  - inversion Hnd as [|? ? Hn Hnd']; subst.
+    inversion H as [|x l1 l2 Hs|x l1 l2 Hs]; subst.
+    + destruct (IH _ _ _ _ Hnd' Hs) as [H1 H2]. split; [apply ss_skip; exact H1|exact H2].
+    + destruct X as [|x X]; cbn [app] in *.
+      * match goal with E : _ :: _ = _ :: _ |- _ => injection E as E1 E2 end. subst.
+        exfalso. apply Hn. apply in_or_app. right. left. reflexivity.
+      * match goal with E : _ :: _ = _ :: _ |- _ => injection E as E1 E2 end. subst.
+        destruct (IH _ _ _ _ Hnd' Hs) as [H1 H2]. split; [apply ss_take; exact H1|exact H2].
+Qed.
+
+Lemma rest_suffix : forall h C cur rest,
+  path h 0 (Some head) C -> path h 0 cur rest ->
+  (forall a, cur = Some a -> In a C) -> exists pre, C = pre ++ rest.
+Proof.
+  intros h C cur rest HC Hr Hin. destruct cur as [a|].
+  - specialize (Hin a eq_refl). apply in_split in Hin. destruct Hin as (p & q & ->).
+    unfold path in HC. apply seg_split in HC. destruct HC as (m & _ & Hm).
+    pose proof (seg_start _ _ _ _ _ _ Hm) as ->.
+    rewrite (path_det h 0 _ _ _ Hr Hm). exists p. reflexivity.
+  - inversion Hr; subst. exists C. rewrite app_nil_r. reflexivity.
+Qed.
+
+Lemma RB_cur_in : forall h C S r a, RB h C S r -> r_cur r = Some a -> In a C.
+Proof.
+  intros h C S r a (rest & Hp & _ & Hs) Hc. rewrite Hc in Hp.
+  destruct rest as [|b rest]; [apply seg_nil_inv in Hp; discriminate|].
+  pose proof (seg_start _ _ _ _ _ _ Hp) as E. injection E as <-.
+  apply (subseq_incl _ _ _ Hs). apply in_or_app. right. left. reflexivity.
+Qed.
+
+Lemma RB_rstep : forall h C S r, RB h C S r -> RB h C S (r_step h r).
+Proof.
+  intros h C S r (rest & Hp & H1 & H2). unfold r_step. destruct (r_cur r) as [a|] eqn:Cu.
+  - destruct rest as [|b rest]; [apply seg_nil_inv in Hp; discriminate|].
+    pose proof (seg_start _ _ _ _ _ _ Hp) as Eb. injection Eb as <-.
+    apply seg_load in Hp. destruct Hp as [_ Hp].
+    exists rest. cbn [r_cur r_done]. rewrite <- app_assoc. cbn [app]. auto.
+  - exists rest. rewrite Cu. auto.
+Qed.
+
+Section MultiStep.
+Variables (h0 : heap) (ls : nat -> list addr) (e : mentry) (n : addr).
+Hypothesis Hwf : wf_heap h0 ls.
+Hypothesis Hfresh : fresh_node h0 ls n e.
+
+Let prev (lv : nat) : addr := pred_of h0 e (ls lv).
+
+(* the level-0 chain in a state satisfying Inv j _ *)
+Definition Cj (j : nat) : list addr := head :: ls_at h0 ls e n j 0.
+
+Lemma Cj_path : forall j half h, Inv h0 ls e n j half h -> path h 0 (Some head) (Cj j).
+Proof.
+  intros j half h Hi. destruct (inv_wf h0 ls e n Hwf Hfresh j half h Hi) as ((Hp & _) & _).
+  apply Hp.
+Qed.
+
+Lemma Cj_0 : Cj 0 = head :: ls 0.
+Proof. reflexivity. Qed.
+
+Lemma Cj_S : forall j, Cj (S j) = head :: linked_in h0 e n (ls 0).
+Proof. reflexivity. Qed.
+
+Lemma RB_link1 : forall j h St r, Inv h0 ls e n j false h -> RB h (Cj j) St r ->
+  RB (wexec n prev h (Link1 j)) (Cj j) St r.
+Proof.
+  intros j h St r Hi (rest & Hp & H1 & H2). exists rest. split; [|split; assumption]. cbn [wexec].
+  destruct (Nat.eq_dec j 0) as [->|Hj].
+  - apply seg_store_notin; [|exact Hp]. intros Hin.
+    apply (n_notin h0 ls e n Hfresh 0). rewrite <- Cj_0.
+    apply (subseq_incl _ _ _ H2). apply in_or_app. right. exact Hin.
+  - apply seg_store_other; [exact Hj|exact Hp].
+Qed.
+
+Lemma RB_link2 : forall j h St r, Inv h0 ls e n j true h -> RB h (Cj j) St r ->
+  RB (wexec n prev h (Link2 j)) (Cj (S j)) St r.
+Proof.
+  intros j h St r Hi HB. cbn [wexec]. destruct j as [|j].
+  - pose proof (Cj_path 0 true h Hi) as HC.
+    pose proof HB as (rest & Hp & H1 & H2).
+    destruct (rest_suffix h (Cj 0) (r_cur r) rest HC Hp
+                (fun a Ha => RB_cur_in h (Cj 0) St r a HB Ha)) as (pre & Epre).
+    pose proof (path_nodup h 0 _ _ HC) as Hnd.
+    pose proof (chain_split h0 ls e 0) as Hc. rewrite <- Cj_0 in Hc.
+    change (pred_of h0 e (ls 0)) with (prev 0) in Hc.
+    rewrite Cj_S, (linked_split h0 ls e n 0). change (pred_of h0 e (ls 0)) with (prev 0).
+    set (I0 := initd head (before h0 e (ls 0))) in *. set (B0 := after h0 e (ls 0)) in *.
+    destruct (in_dec Nat.eq_dec (prev 0) rest) as [Hin|Hnin].
+    + apply in_split in Hin. destruct Hin as (r1 & r2 & ->).
+      assert (E : (pre ++ r1) ++ prev 0 :: r2 = I0 ++ prev 0 :: B0)
+        by (rewrite <- app_assoc; exact (eq_trans (eq_sym Epre) Hc)).
+      assert (Hnd' : NoDup ((pre ++ r1) ++ prev 0 :: r2)) by (rewrite E, <- Hc; exact Hnd).
+      destruct (nodup_split_unique _ _ _ _ _ Hnd' E) as [E1 E2].
+      exists (r1 ++ prev 0 :: n :: r2). split; [|split].
+      * apply path_splice.
+        -- exact Hp.
+        -- intros X. apply (n_notin h0 ls e n Hfresh 0). rewrite <- Cj_0.
+           apply (subseq_incl _ _ _ H2). apply in_or_app. right. exact X.
+        -- apply Hi.
+        -- destruct Hi as (_ & _ & _ & _ & Hl). rewrite E2. apply Hl. reflexivity.
+      * eapply subseq_trans; [|exact H1]. apply subseq_app; [apply subseq_refl|].
+        replace (r1 ++ prev 0 :: r2) with ((r1 ++ [prev 0]) ++ r2) by (rewrite <- app_assoc; reflexivity).
+        replace (r1 ++ prev 0 :: n :: r2) with ((r1 ++ [prev 0]) ++ n :: r2) by (rewrite <- app_assoc; reflexivity).
+        apply subseq_mid.
+      * rewrite Hc in H2, Hnd.
+        replace (r_done r ++ r1 ++ prev 0 :: r2) with ((r_done r ++ r1) ++ prev 0 :: r2) in H2
+          by (rewrite <- app_assoc; reflexivity).
+        destruct (subseq_split_nodup _ _ _ _ _ Hnd H2) as [S1 S2].
+        replace (r_done r ++ r1 ++ prev 0 :: n :: r2) with ((r_done r ++ r1) ++ prev 0 :: n :: r2)
+          by (rewrite <- app_assoc; reflexivity).
+        apply subseq_app; [exact S1|]. apply ss_take. apply ss_take. exact S2.
+    + exists rest. split; [apply seg_store_notin; assumption|]. split; [exact H1|].
+      eapply subseq_trans; [|exact H2]. rewrite Hc.
+      replace (I0 ++ prev 0 :: B0) with ((I0 ++ [prev 0]) ++ B0) by (rewrite <- app_assoc; reflexivity).
+      replace (I0 ++ prev 0 :: n :: B0) with ((I0 ++ [prev 0]) ++ n :: B0) by (rewrite <- app_assoc; reflexivity).
+      apply subseq_mid.
+  - destruct HB as (rest & Hp & H1 & H2). exists rest.
+    split; [apply seg_store_other; [discriminate|exact Hp]|]. split; assumption.
+Qed.
+
+End MultiStep.
+
+(* ------------------------------------------------------------------------------------- *)
 (* a concrete instance                                                                    *)
 (* ------------------------------------------------------------------------------------- *)
 
